@@ -87,6 +87,13 @@ NEAR_MISS = [
     "struct P(x: int)\nfn mk()->P{ P(7) }\nfn host()->str{ struct P(x: str)  let xs = [P('a'), mk()]; xs[1]::x }\nlet w = host();",
     "struct P(x: int)\nfn mk()->P{ P(7) }\nfn host()->str{ struct P(x: str)  fn first(p: P)->str{ p::x }  first(mk()) }\nlet w = host();",
     "let x = add{int, $}(1);", "let x = add{$, $, $}(1, 2);", "fn foo(x: Sequence<int>)->int{ x.len() }\nlet a = foo{Sequence<$>}([1, 2]);",
+    "fn f<T>(x: T, y: T ?= 0)->T{ y }\nlet b = f('a');\nlet r = b.len();",
+    "fn f<T>(x: Sequence<T>, y: T ?= 0)->Sequence<T>{ x.push(y) }\nlet b = f(['a']);\nlet r = b[1].len();",
+    "fn f(a: int, b: int ?= 5)->int{ a + b }\nfn g(a: int, b: int)->int{ a * b }\nlet h = if(false, f, g);\nlet r = h(2);",
+    "fn f(a: int, b: int ?= 5)->int{ a + b }\nfn g(a: int, b: int)->int{ a * b }\nlet hs = [f, g];\nlet r = hs[1](2);",
+    "fn f(a: int ?= 1)->int{ a }\nfn g(a: int)->int{ a }\nfn pick<T>(x: T, y: T)->T{ y }\nlet r = pick(f, g)();",
+    "forward fn foo(x: int)->int;\nfn bar(x: int)->int{ foo(x) + 1 }\nfn foo(x: int)->str{ 'seven' }\nlet y = bar(1);",
+    "let pending = stack().push(1).push(2);\nlet empty: Sequence<int> = [];\nlet merged = empty + pending;\nlet boxed = (merged, 'label');\nlet n = boxed::item0.len();",
     "fn main()->int{ fn h()->int{ main() } 1 }", "let r = (()->{ 1 })();", "let r = [()->{1}][0]();", "let r = some((x: int)->{x}).value()('a');",
     "type I = int;\nlet x: I = 'a';", "type F = (int)->(int);\nlet f: F = (a: str)->{1};\nlet r = f(1);",
     "struct S(a: int)\nlet r = S('a')::a + 1;", "struct S(a: int)\nlet r = S(1, 2);", "struct S(a: int)\nlet r = S()::a;", "union U(a: int, b: str)\nlet r = U::a('x')!:a + 1;",
